@@ -261,3 +261,12 @@ Example conv_example :
   init_convert std_app (Some c) (VTok 5) VSelf VField 4
   = (Ok (VApp 3 [VFresh 7 4; VField]), 5).
 Proof. repeat split. Qed.
+
+(** Non-vacuity of [dispatch_arity_consistent_l]: the interpretation used by the
+    correspondence cases never raises TypeError itself. *)
+Example std_app_no_etype : app_no_etype std_app.
+Proof.
+  intros f a. unfold std_app.
+  destruct (f <? 10); [discriminate|]. destruct (f <? 20); [discriminate|].
+  destruct (f <? 30); [discriminate|]. destruct a; discriminate.
+Qed.
